@@ -131,6 +131,18 @@ def lossless_quantization(codec_features):
     quant_matrix = get_quantization_marix(codec_features)
     qindex = compute_qindex_with_distinct_quant_factors(quant_matrix)
 
+    # The qindex field of a high quality slice is 8 bits wide. If the
+    # quantisation matrix has entries so large that no representable qindex
+    # gives every subband a distinct quantisation factor, give up on this test
+    # case (rather than failing when the stream is serialised).
+    if qindex > 255:
+        logging.warning(
+            "The lossless_quantization test case generator could not pick a "
+            "quantisation index for the (impractically large) custom "
+            "quantisation matrix entries and has been omitted."
+        )
+        return None
+
     # Start with a mid-gray frame (coeffs set to 0). We'll hand-modify this to
     # contain all 1s because a picture which does this may be slightly larger
     # than the unclipped picture size and therefore we can't rely on the
